@@ -418,15 +418,64 @@ theorem cindexLoad_torn (c : Codec CMap) (hc : c.Laws) (f : Files) (m : CMap) (n
     (h : f .cindexDat = some ((c.enc m).take n)) : cindexLoad c f = [] := by
   simp [cindexLoad, h, hc.torn m n hn]
 
-/-- **F06 (stale snapshot)**: the index knows chunk 1 with the hull `[10, 20]` of an earlier clean stop; the chunk
-grew by a record with timestamp 30 before the crash. `lightFill` skips the chunk (`MaxTs > 0`), the hull is never
-extended, and `RANGE [25:35]` returns nothing although the flushed event 30 is in range. -/
+/-- the hull `lightFill` gives a monotone, non-empty chunk contains every record -/
+theorem lightFill_fresh_sound (ck : Chunk) (hmono : ck.recs.Pairwise (· ≤ ·)) :
+    ∀ t ∈ ck.recs, (lightFill1 ck ⟨ck.id, maxInt64, 0, 0, 0⟩).minTs ≤ t ∧ t ≤ (lightFill1 ck ⟨ck.id, maxInt64, 0, 0, 0⟩).maxTs := by
+  intro t ht
+  simp only [lightFill1]
+  cases hh : ck.recs.head? with
+  | none => cases hr : ck.recs with
+    | nil => rw [hr] at ht; cases ht
+    | cons a r => rw [hr] at hh; simp at hh
+  | some a =>
+    cases hl : ck.recs.getLast? with
+    | none => cases hr : ck.recs with
+      | nil => rw [hr] at ht; cases ht
+      | cons a r => rw [hr] at hl; simp at hl
+    | some b =>
+      have h1 := head_le_of_pairwise ck.recs a hmono hh t ht
+      have h2 := le_last_of_pairwise ck.recs b hmono hl t ht
+      have : ¬ b < a := by omega
+      simp [this]
+      exact ⟨h1, h2⟩
+
+/-- **F06 (stale snapshot), the unrepaired branch** (`syncChunkB false`: what `syncChunks` does without `dropStale`): the
+index knows chunk 1 with the hull `[10, 20]` of an earlier clean stop (2 records); the chunk grew by a record with
+timestamp 30 before the crash. `lightFill` skips the chunk (`MaxTs > 0`), the hull is never extended, and
+`RANGE [25:35]` returns nothing although the flushed event 30 is in range. -/
 theorem cex_stale_snapshot :
-    let stale : CMap := [([106], [⟨1, 10, 20, 0⟩])]
+    let stale : List ChkInfo := [⟨1, 10, 20, 0, 2⟩]
     let cks : List Chunk := [⟨1, [10, 20, 30]⟩]
     lightFillSkipsWhenMaxTsPositive = true ∧ cindexSnapshotOnlyAtClose = true ∧
-    staleGrown ((alookup stale [106]).getD []) cks = true ∧
-    rangeVisible (hullView stale [106] cks) cks 25 35 = [] ∧ rangeSpec cks 25 35 = [30] := by
+    rangeVisible (cks.map (syncChunkB false stale)) cks 25 35 = [] ∧ rangeSpec cks 25 35 = [30] := by
+  decide
+
+/-- **No flushed event is hidden after recovery from a stale snapshot — the repaired branch** (`syncChunkB true`: the
+snapshot records how many records each hull accounts for, `chkInfo.Recs`, and `syncChunks` drops the entry of a chunk
+that holds more): a chunk that grew since the snapshot is handled like a chunk the index does not know, so a monotone
+chunk gets a hull that contains every record; an entry that is not stale is kept as it is. -/
+theorem no_event_hidden_after_stale_snapshot (old : List ChkInfo) (ck : Chunk) (o : ChkInfo)
+    (hfind : old.find? (fun o => o.id == ck.id) = some o) (hmono : ck.recs.Pairwise (· ≤ ·)) :
+    (o.recs < ck.recs.length → ∀ t ∈ ck.recs, (syncChunkB true old ck).minTs ≤ t ∧ t ≤ (syncChunkB true old ck).maxTs) ∧
+    (ck.recs.length ≤ o.recs → syncChunkB true old ck = o) := by
+  constructor
+  · intro hs
+    have : syncChunkB true old ck = lightFill1 ck ⟨ck.id, maxInt64, 0, 0, 0⟩ := by simp [syncChunkB, hfind, hs]
+    rw [this]; exact lightFill_fresh_sound ck hmono
+  · intro hs
+    have : ¬ o.recs < ck.recs.length := by omega
+    simp [syncChunkB, hfind, this]
+
+/-- the witness of F06 on the branch the source is on NOW (`syncChunksDropsStaleEntries`, regenerated): hidden without the
+repair, exact with it — this theorem holds on both trees and says which one it is looking at -/
+theorem stale_snapshot_witness :
+    let stale : CMap := [([106], [⟨1, 10, 20, 0, 2⟩])]
+    let cks : List Chunk := [⟨1, [10, 20, 30]⟩]
+    rangeSpec cks 25 35 = [30] ∧
+    (if syncChunksDropsStaleEntries then
+       rangeVisible (hullView stale [106] cks) cks 25 35 = [30] ∧ staleGrown ((alookup stale [106]).getD []) cks = false
+     else
+       rangeVisible (hullView stale [106] cks) cks 25 35 = [] ∧ staleGrown ((alookup stale [106]).getD []) cks = true) := by
   decide
 
 /-- the stale snapshot is what a crash leaves: after a clean stop (snapshot written), a restart and a further write,
@@ -441,24 +490,8 @@ timestamps are monotone and positive the hull contains every record, so no RANGE
 theorem hull_after_recover_partial (old : List ChkInfo) (ck : Chunk)
     (hunk : old.find? (fun o => o.id == ck.id) = none) (hmono : ck.recs.Pairwise (· ≤ ·)) :
     ∀ t ∈ ck.recs, (syncChunk old ck).minTs ≤ t ∧ t ≤ (syncChunk old ck).maxTs := by
-  intro t ht
-  simp only [syncChunk, hunk, lightFill1]
-  cases hh : ck.recs.head? with
-  | none => cases hr : ck.recs with
-    | nil => rw [hr] at ht; cases ht
-    | cons a r => rw [hr] at hh; simp at hh
-  | some a =>
-    cases hl : ck.recs.getLast? with
-    | none => cases hr : ck.recs with
-      | nil => rw [hr] at ht; cases ht
-      | cons a r => rw [hr] at hl; simp at hl
-    | some b =>
-      have h1 := head_le_of_pairwise ck.recs a hmono hh t ht
-      have h2 := le_last_of_pairwise ck.recs b hmono hl t ht
-      have hab : a ≤ b := Int.le_trans h1 h2
-      have : ¬ b < a := by omega
-      simp [this]
-      exact ⟨h1, h2⟩
+  have : syncChunk old ck = lightFill1 ck ⟨ck.id, maxInt64, 0, 0, 0⟩ := by simp [syncChunk, syncChunkB, hunk]
+  rw [this]; exact lightFill_fresh_sound ck hmono
 
 /-- non-monotone chunk: `lightFill`'s hull (first and last record) misses the record 50 — C02's class
 "non-monotone partition" (DESIGN §7 #4) -/
@@ -565,10 +598,10 @@ theorem no_event_hidden_after_first_write_on_lost_snapshot (m : CMap) (src : Src
   refine ⟨f1, f2, ?_⟩
   have hne : before.isEmpty = false := by cases before <;> simp_all
   have hm' : alookup (cindexOnWriteR m src cid before batch mn mx) src
-      = some [rebuildHull (before ++ batch) ⟨cid, mn, mx, 0⟩] := by
+      = some [rebuildHull (before ++ batch) ⟨cid, mn, mx, 0, before.length + batch.length⟩] := by
     simp only [cindexOnWriteR, onWriteNewChk, hunk, f1, f2, hne, cindexOnWrite, alookup_aset_self, Bool.not_false,
       Bool.and_self, if_true, List.getLast?_singleton, List.dropLast_singleton, List.nil_append]
-  have hid : (rebuildHull (before ++ batch) ⟨cid, mn, mx, 0⟩).id = cid := by
+  have hid : (rebuildHull (before ++ batch) ⟨cid, mn, mx, 0, before.length + batch.length⟩).id = cid := by
     unfold rebuildHull; split <;> simp [ChkInfo.update]
   apply range_complete_of_sound_hulls
   · simp [hullView, syncChunks]
@@ -578,9 +611,12 @@ theorem no_event_hidden_after_first_write_on_lost_snapshot (m : CMap) (src : Src
       simp only [hullView, syncChunks, hm', Option.getD_some, List.map_cons, List.map_nil, List.getElem?_cons_zero,
         Option.some.injEq] at hh hck
       subst hck
-      have hs : syncChunk [rebuildHull (before ++ batch) ⟨cid, mn, mx, 0⟩] ⟨cid, before ++ batch⟩
-          = rebuildHull (before ++ batch) ⟨cid, mn, mx, 0⟩ := by
-        simp [syncChunk, hid]
+      have hs : syncChunk [rebuildHull (before ++ batch) ⟨cid, mn, mx, 0, before.length + batch.length⟩] ⟨cid, before ++ batch⟩
+          = rebuildHull (before ++ batch) ⟨cid, mn, mx, 0, before.length + batch.length⟩ := by
+        have hrec : (rebuildHull (before ++ batch) ⟨cid, mn, mx, 0, before.length + batch.length⟩).recs
+            = before.length + batch.length := by
+          unfold rebuildHull; split <;> simp [ChkInfo.update]
+        simp [syncChunk, syncChunkB, hid, hrec]
       rw [hs] at hh
       subst hh
       exact rebuildHull_sound _ _ t ht
